@@ -709,10 +709,19 @@ func (r *Reliable) sendFrameByNumberLocked(frameNo uint32) {
 	for i := 0; i < defaultWindowSize; i++ {
 		rtrFrameStruct := r.sender.frames[i]
 		if rtrFrameStruct.frameNo == frameNo && rtrFrameStruct.queued {
-			rtrFrameStruct.Time = time.Now()
-			r.sender.prioritySendQueue <- rtrFrameStruct.frame
-			if common.Debug {
-				logrus.Debugf("Frame %v found and prority sent", frameNo)
+			// The caller holds the tube's lifecycle lock, and the send
+			// goroutine, the only reader of this queue, takes the same lock at
+			// every retransmission tick: a blocking send on a full queue would
+			// deadlock the two (and the muxer's receiver with them). A fast
+			// retransmission that does not fit is left to the retransmission
+			// timer.
+			select {
+			case r.sender.prioritySendQueue <- rtrFrameStruct.frame:
+				rtrFrameStruct.Time = time.Now()
+				if common.Debug {
+					logrus.Debugf("Frame %v found and prority sent", frameNo)
+				}
+			default:
 			}
 			return
 		} else if rtrFrameStruct.frameNo > frameNo {
